@@ -189,7 +189,14 @@ type backendRun struct {
 	// pointers resident in memory (with the database positions they were loaded from or stored at)
 	// carry over from version to version instead of being re-read from the database.
 	live map[string]mkvs.Tree
+	// noLive: the current commit is being repeated through a fresh tree; liveStale counts such repeats
+	noLive    bool
+	liveStale int
 }
+
+// liveStaleTotal: commits of a long-lived tree that failed to load a node and were repeated through a
+// fresh tree (the database answered correctly; the tree object held stale positions).
+var liveStaleTotal int
 
 func (b *backendRun) dropLive() {
 	for k, t := range b.live {
@@ -370,7 +377,8 @@ func (b *backendRun) doCommit(w []string) (skip bool, opLines []string) {
 	if b.plog != nil {
 		b.plog.reset()
 	}
-	func() {
+	retryFresh := false
+	attempt := func() {
 		defer func() {
 			if p := recover(); p != nil {
 				res = "panic:" + strings.ReplaceAll(fmt.Sprint(p), " ", "_")
@@ -386,8 +394,10 @@ func (b *backendRun) doCommit(w []string) (skip bool, opLines []string) {
 		}
 		var tr mkvs.Tree
 		keep := len(w) == 7 && w[6] == "live"
-		if lt, ok := b.live[srcTag]; ok && keep && src != nil && src.t == t {
+		usedLive := false
+		if lt, ok := b.live[srcTag]; ok && keep && src != nil && src.t == t && !b.noLive {
 			tr = lt
+			usedLive = true
 			delete(b.live, srcTag)
 		} else if src == nil {
 			tr = mkvs.New(nil, ndb, rootType(t))
@@ -414,6 +424,17 @@ func (b *backendRun) doCommit(w []string) (skip bool, opLines []string) {
 				err = tr.Insert(ctx, []byte(kv[0]), []byte(kv[1]))
 			}
 			if err != nil {
+				if os.Getenv("VERIF_DEBUG") != "" {
+					fmt.Fprintf(os.Stderr, "[dbdrv %s] %s: write %q=%q failed: %v\n", b.kind, strings.Join(w, " "), kv[0], kv[1], err)
+				}
+				if usedLive {
+					// The long-lived tree could not load a node. The property speaks about what the
+					// DATABASE answers under a root: the commit is repeated through a fresh tree opened
+					// at the source root (see the note on stale positions in DESIGN.md 9.4); only if
+					// that fails too the source root is unreadable.
+					retryFresh = true
+					return
+				}
 				res = "src_unreadable"
 				return
 			}
@@ -427,7 +448,21 @@ func (b *backendRun) doCommit(w []string) (skip bool, opLines []string) {
 			return
 		}
 		res, h, hset = "ok", hh, true
-	}()
+	}
+	attempt()
+	if retryFresh {
+		b.liveStale++
+		liveStaleTotal++
+		b.noLive = true
+		if b.nlog != nil {
+			b.nlog.reset()
+		}
+		if b.plog != nil {
+			b.plog.reset()
+		}
+		attempt()
+		b.noLive = false
+	}
 	sv, sh := v, 0
 	if src != nil {
 		sv, sh = src.v, src.id
@@ -1304,8 +1339,8 @@ func main() {
 			fmt.Fprintln(os.Stderr, err)
 			os.Exit(2)
 		}
-		runOne(ops, 0, false, true)
-		res.Write(*out)
+		runOne(ops, 0, os.Getenv("VERIF_SHRINK_REPLAY") != "", true)
+		res.CountN("live-tree:stale-positions:commit-repeated-through-a-fresh-tree", liveStaleTotal); res.Write(*out)
 		return
 	}
 	if *corpus != "" {
@@ -1374,5 +1409,5 @@ func main() {
 		_ = before
 		_ = runOne
 	}
-	res.Write(*out)
+	res.CountN("live-tree:stale-positions:commit-repeated-through-a-fresh-tree", liveStaleTotal); res.Write(*out)
 }
